@@ -234,6 +234,8 @@ func (g *storeGen) step() Step {
 		s.TTL = rapid.SampledFrom(genTTLs).Draw(t, lbl+".ttl")
 	case "advance":
 		s.D = rapid.SampledFrom(genAdvances).Draw(t, lbl+".d")
+	case "clockback":
+		s.D = rapid.SampledFrom([]time.Duration{time.Millisecond, 20 * time.Millisecond, time.Second, 29 * time.Second, time.Minute}).Draw(t, lbl+".back")
 	case "ack", "nack", "extend", "dead":
 		s.LeaseRef = intp(g.leaseRef(lbl))
 		if op == "nack" || op == "extend" {
